@@ -333,11 +333,14 @@ Fixpoint scanRawAttrListforNameSpaces (c : cfg) (s : scan) (attrs : list rattr) 
     per attribute: resolve the prefix, raw-name registry (fUndeclaredAttrRegistry), then the expanded-name check
     against the attributes already built (linear, or fAttrDupChkRegistry above the threshold: the same predicate) *)
 Definition same_expanded (uri : nat) (loc : name) (x : xattr) : bool := (xa_uri x =? uri) && name_eqb (xa_loc x) loc.
+(** no colon: "an empty prefix is always the empty namespace, when dealing with attributes" *)
+Definition attr_uri (c : cfg) (s : scan) (p : name) : res nat xerr :=
+  match p with [] => Ok emptyId | _ => resolvePrefix c s p true end.
 Fixpoint buildAttList (c : cfg) (s : scan) (attrs : list rattr) (done : list xattr) : res (list xattr) xerr :=
   match attrs with
   | [] => Ok (rev done)
   | a :: r =>
-    do uri <- (match ra_pfx a with [] => Ok emptyId | p => resolvePrefix c s p true end);
+    do uri <- attr_uri c s (ra_pfx a);
     if existsb (fun x => name_eqb (qname_of (xa_pfx x) (xa_loc x)) (qname_of (ra_pfx a) (ra_loc a))) done
     then Err E_AttrAlreadyUsedInSTag
     else if existsb (same_expanded uri (ra_loc a)) done then Err E_AttrAlreadyUsedInSTag
